@@ -58,6 +58,40 @@ func probes(vp *views.ViewPort, rv *recView, lo, hi int) []interface{} {
 	return out
 }
 
+// fillProbe: what Fill (and Clear, which is a Fill) sends to the parent: bounding box, number of calls, number of
+// distinct cells.
+var fillToggle int
+
+func fillProbe(vp *views.ViewPort, rv *recView) []int {
+	rv.calls = rv.calls[:0]
+	fillToggle++
+	if fillToggle%2 == 0 {
+		vp.Fill('f', tcell.StyleDefault)
+	} else {
+		vp.Clear()
+	}
+	out := []int{0, 0, 0, 0, len(rv.calls), 0}
+	seen := map[[2]int]bool{}
+	for i, c := range rv.calls {
+		if i == 0 || c[0] < out[0] {
+			out[0] = c[0]
+		}
+		if i == 0 || c[1] < out[1] {
+			out[1] = c[1]
+		}
+		if i == 0 || c[0] > out[2] {
+			out[2] = c[0]
+		}
+		if i == 0 || c[1] > out[3] {
+			out[3] = c[1]
+		}
+		seen[[2]int{c[0], c[1]}] = true
+	}
+	out[5] = len(seen)
+	rv.calls = rv.calls[:0]
+	return out
+}
+
 type vpOp struct {
 	Op     string `json:"op"`
 	N      int    `json:"n"`
@@ -77,7 +111,7 @@ func runViewPort(tw *trace.Writer, pw, ph int, ops []vpOp, maxc int) {
 		cp := *vp // probes go through a copy: SetContent grows the limits of an unlocked viewport
 		tw.Emit(trace.Ev{"ev": ev, "op": o.Op, "before": []int{before[0], before[1]}, "g": geom(vp), "lim": []int{lx, ly},
 			"a": []int{o.N, o.X, o.Y, o.W, o.H}, "P": []int{rv.w, rv.h},
-			"probes": probes(&cp, rv, -2, maxc+2)})
+			"probes": probes(&cp, rv, -2, maxc+2), "fill": fillProbe(&cp, rv)})
 	}
 	locked := false
 	emit("VpNew", vpOp{Op: "New"}, [2]int{0, 0}, locked)
@@ -129,6 +163,8 @@ func vpApply(vp *views.ViewPort, o vpOp) {
 			vp.SetContentSize(o.W, o.H, o.Locked)
 		case "Resize":
 			vp.Resize(o.X, o.Y, o.W, o.H)
+		case "Reset":
+			vp.Reset()
 		}
 	}
 }
@@ -401,7 +437,9 @@ func viewsMain(args []string) error {
 		n := 3 + rng.Intn(12)
 		c := func() int { return rng.Intn(40) - 3 }
 		for k := 0; k < n; k++ {
-			switch rng.Intn(10) {
+			switch rng.Intn(11) {
+			case 10:
+				h = append(h, vpOp{Op: "Reset"})
 			case 0:
 				h = append(h, vpOp{Op: "ScrollUp", N: rng.Intn(16) - 4})
 			case 1:
